@@ -50,7 +50,7 @@ partial def getVal (j : Json) : Except String Val := do
       | none => .error "float without num"
   | "str" => pure (.str (← getStr j "v") (← getStr j "repr"))
   | "bytes" => pure (.bytes (← getRef j) (← getStr j "repr"))
-  | "qname" => pure (.qname (← getStr j "text"))
+  | "qname" => pure (.qname (← getStr j "text") (← getStr j "repr"))
   | "opaque" => pure (.opaque (← getRef j) (← strList j "callee") (← getStr j "args") (← getNum j))
   | "enum" => pure (.enum (← getRef j) (← getStr j "member"))
   | "list" => pure (.list (← (← getArr j "items").mapM getVal))
@@ -101,9 +101,13 @@ def run (op : String) (a : Json) : Option (Except String Json) :=
       let W ← getWorld a
       let v ← getVal (a.getObjValD "val")
       let var ← getStr a "var"
+      -- "patched": true evaluates the model of the serializer with the three proposed repairs
+      let cfg := match a.getObjValD "patched" with
+        | .bool true => Cfg.patched
+        | _ => Cfg.asIs
       pure <| ok (jObj [
-        ("text", jStr (source W v var)),
-        ("outcome", jStr (outcome W v)),
+        ("text", jStr (sourceC cfg W v var)),
+        ("outcome", jStr (outcomeC cfg W v)),
         ("imports", jList (fun p => Json.arr #[jStr p.1, jStr p.2]) (importsEnv W v))])
   | "c18.dq" => some do
       let s ← getStr a "s"
